@@ -478,22 +478,124 @@ theorem net_idle_block_is_flushed (c : Cfg α) (es : List (Ev α)) (i r : Nat)
     (hidle : (run c State.init es).idle i r = true) : ∀ d, ((run c State.init es).row i r).buf d = [] :=
   (run_inv c es _ (inv_init c)).idle i r hidle
 
-/-- **C18 (delivery on the network, `_partial`).** Blocks `1 … depth` adaptive. In any reachable state
-    in which nothing but new input can happen any more — every link empty, every source asleep, no
-    receive timeout enabled (each block has timed out once after ALL its incoming links drained) —
-    every batcher of every replica is empty and every replica has received, over every link, exactly
-    what was enqueued for it, in order.
-    Full statement (`quiesce_delivers_all` / `eventually_delivered` for the network): every execution
-    without further input reaches such a state after boundedly many events, one timeout per replica
-    after its inputs drained. Proved for the one-replica-per-block pipeline (`Noir.Latency`); on the
-    network the termination argument (work bound) is not formalised — what is missing is only that
-    step, the safety part is this theorem. Fan-out is also where F12 lives. -/
-theorem net_stuck_delivered_partial (c : Cfg α)
-    (hadp : ∀ i, 1 ≤ i → i ≤ c.depth → isAdaptive (c.mode i) = true) (es : List (Ev α))
-    (hst : Stuck c (run c State.init es)) :
-    Quiescent (run c State.init es) ∧
-    ∀ i r d, (run c State.init es).recvOn i r d = ((run c State.init es).row i r).sent d :=
-  stuck_quiescent c _ (run_inv c es _ (inv_init c)) hst hadp
+/-- **C18 (`net_eventually_delivered`: termination and delivery on the network, any order).** Blocks
+    `1 … depth` adaptive, ANY reachable state `s` of the layered network, ANY continuation `es'` without
+    new input (`recv` on any link, `timeout`, `srcIdle`, in any interleaving, enabled or not):
+    1. **termination** — the number of events of `es'` that are enabled when their turn comes is at most
+       the work bound `phi c s` (2 per buffered element and 2 per queued batch, each weighted with what
+       it causes in the layers below, plus 1 per armed timeout / awake source); every enabled event
+       except `src` strictly lowers `phi` and every other event changes nothing, so every schedule
+       without further input contains only finitely many effective steps, whatever the order;
+    2. **delivery** — as soon as no event except new input is enabled (every real link empty, every
+       source asleep, every replica timed out once after ALL its incoming links drained), every real
+       link `(i, r) → (i+1, d)` has an empty batcher, an empty channel, and its destination has received
+       exactly what was enqueued for it, in order;
+    3. such a state is reachable from `s` by a continuation of at most `phi c s` events (none of them
+       input). -/
+theorem net_eventually_delivered (c : Cfg α)
+    (hadp : ∀ i, 1 ≤ i → i ≤ c.depth → isAdaptive (c.mode i) = true) (es es' : List (Ev α))
+    (hno : ∀ e ∈ es', Ev.isSrc e = false) :
+    let s := run c State.init es
+    let t := run c s es'
+    countEnabled c s es' + phi c t ≤ phi c s ∧
+    (NoEnabled c t → Delivered c t) ∧
+    (∃ es'', (∀ e ∈ es'', Ev.isSrc e = false) ∧ es''.length ≤ phi c s ∧ NoEnabled c (run c s es'') ∧
+      Delivered c (run c s es'')) := by
+  intro s t
+  have hs := run_inv c es _ (inv_init c)
+  have ht := run_inv c es' s hs
+  refine ⟨run_work c es' s hno, fun hst => noEnabled_delivered c t ht hst hadp, ?_⟩
+  have key : ∀ (n : Nat) (s : State α), Inv c s → phi c s ≤ n →
+      ∃ es'', (∀ e ∈ es'', Ev.isSrc e = false) ∧ es''.length ≤ phi c s ∧ NoEnabled c (run c s es'') := by
+    intro n
+    induction n with
+    | zero =>
+      intro s _ h0
+      refine ⟨[], by simp, by simp, ?_⟩
+      intro e he
+      show Enabled c s e = false
+      cases hen : Enabled c s e with
+      | false => rfl
+      | true => have := (step_work c s e he).1 hen; omega
+    | succ n ih =>
+      intro s hi hle
+      by_cases hst : NoEnabled c s
+      · exact ⟨[], by simp, by simp, hst⟩
+      · have : ∃ e, Ev.isSrc e = false ∧ Enabled c s e = true := by
+          apply Classical.byContradiction
+          intro hcon
+          apply hst
+          intro e he
+          cases hen : Enabled c s e with
+          | false => rfl
+          | true => exact absurd ⟨e, he, hen⟩ hcon
+        obtain ⟨e, he, hen⟩ := this
+        have hdec := (step_work c s e he).1 hen
+        obtain ⟨es2, h1, h2, h3⟩ := ih (step c s e) (step_inv c s e hi) (by omega)
+        refine ⟨e :: es2, ?_, by simp; omega, by simpa [run] using h3⟩
+        intro e' he'
+        simp only [List.mem_cons] at he'
+        rcases he' with rfl | he'
+        · exact he
+        · exact h1 e' he'
+  obtain ⟨es2, h1, h2, h3⟩ := key (phi c s) s hs (Nat.le_refl _)
+  exact ⟨es2, h1, h2, h3, noEnabled_delivered c _ (run_inv c es2 s hs) h3 hadp⟩
+
+/-- **C18 (bounded delay on the network — the F12 hypothesis negated).** One replica's `End` (its `Row`
+    of batchers, `Adaptive`), any history `pre` of calls, then a call `sv` that *services* the batcher
+    towards `d` — an enqueue into THAT batcher whose timer test `last_send.elapsed() > max_delay` is
+    true, or a `FlushBatch` (the receive timeout of the block, the idle flush of the source) — then any
+    further calls `post`: everything enqueued towards `d` before `sv` has left the batcher (it has
+    been received by `d` or is on the channel to `d`, in order).
+    Hence the bounded-delay half of C18 holds on the network exactly under the fairness condition
+    that F12 violates: *every non-empty batcher is serviced within bounded time* — it receives an
+    enqueue after `max_delay`, or its block's receive timeout expires. The timeout is guaranteed when
+    no input arrives (`net_eventually_delivered`); the unchanged code does not guarantee either while
+    the block keeps receiving input routed to other destinations (`starved_batcher_counterexample`:
+    a schedule without any servicing call for `d`). -/
+theorem net_bounded_delay_if_serviced (n : Nat) (dest : α → Nat) (rcv : Nat → List α) (ρ : Row α)
+    (hρ : ∀ d, rcv d ++ (ρ.out d).flatten ++ ρ.buf d = ρ.sent d)
+    (pre post : List (RowOp α)) (sv : RowOp α) (d : Nat) (hs : services dest d sv = true) :
+    let ρ₁ := Row.runOps (.adaptive n) dest ρ pre
+    let ρ₂ := Row.runOps (.adaptive n) dest ρ (pre ++ [sv] ++ post)
+    (ρ₁.sent d) <+: rcv d ++ (ρ₂.out d).flatten := by
+  intro ρ₁ ρ₂
+  have hinv0 : RowInv (.adaptive n) rcv ρ := fun d => ⟨hρ d, fun h => by cases h⟩
+  have hinv1 := runOps_inv (.adaptive n) dest rcv pre ρ hinv0
+  have hinvs := rowStep_inv (.adaptive n) dest rcv ρ₁ sv hinv1
+  have hbuf := services_empties n dest ρ₁ d sv hs
+  obtain ⟨_, ⟨e2, hsent⟩⟩ := rowStep_mono (.adaptive n) dest ρ₁ sv d
+  obtain ⟨⟨e3, hout⟩, _⟩ := runOps_mono (.adaptive n) dest d post (ρ₁.step (.adaptive n) dest sv)
+  have h2 : ρ₂ = Row.runOps (.adaptive n) dest (ρ₁.step (.adaptive n) dest sv) post := by
+    simp only [ρ₂, ρ₁, runOps_append, Row.runOps]
+  have hl := (hinvs d).1
+  rw [hbuf, List.append_nil, hsent] at hl
+  refine ⟨e2 ++ e3.flatten, ?_⟩
+  rw [h2, hout, List.flatten_append, ← List.append_assoc, ← List.append_assoc, hl]
+
+/-- … and a receive timeout (or the source's idle flush) services ALL batchers of the replica at once:
+    right after it, on every link of the replica, everything enqueued so far is received or on the
+    channel. -/
+theorem net_timeout_services_all (c : Cfg α) (es : List (Ev α)) (i r : Nat)
+    (hen : Enabled c (run c State.init es) (.timeout i r) = true ∨
+           (i = 0 ∧ Enabled c (run c State.init es) (.srcIdle r) = true)) :
+    let t := step c (run c State.init es) (if i = 0 then .srcIdle r else .timeout i r)
+    ∀ d, t.recvOn i r d ++ ((t.row i r).out d).flatten = (t.row i r).sent d := by
+  intro t d
+  have hs := run_inv c es _ (inv_init c)
+  have ht : Inv c t := step_inv c _ _ hs
+  have hidle : t.idle i r = true := by
+    rcases hen with hen | ⟨rfl, hen⟩
+    · have hi : i ≠ 0 := by
+        intro h0; subst h0; simp [Enabled, timeoutEnabled] at hen
+      simp only [t, hi, if_false]
+      simp only [Enabled] at hen
+      simp [step, hen, flushIdle]
+    · simp only [t, if_true]
+      simp only [Enabled] at hen
+      simp [step, hen, flushIdle]
+  have := (ht.link i r d).1
+  simpa [ht.idle i r hidle d] using this
 
 /-- Non-vacuity: source → 2 replicas (routing `y % 2`) → sink, `Adaptive 2`: size flushes, an idle flush,
     one timeout per replica; the sink gets everything, per link in order. -/
@@ -503,6 +605,24 @@ example :
       .timeout 1 0, .timeout 1 1, .recv 2 0 1 [], .recv 2 0 0 []]
     s.got 2 0 = [1, 3, 2] ∧ s.recvOn 0 0 1 = [1, 3] ∧ s.recvOn 0 0 0 = [2] ∧ (s.row 0 0).sent 1 = [1, 3] ∧
     s.idle 1 0 = true ∧ s.idle 1 1 = true := by
+  decide
+
+/-- Non-vacuity of the work bound on the same network: after the three inputs it is 13; the seven
+    events of the continuation are all enabled and bring it to 0 (nothing left to do). -/
+example :
+    let c : Cfg Nat := ⟨1, fun i => if i = 1 then 2 else 1, fun _ => .adaptive 2, fun _ x => [x], fun _ y => y⟩
+    let s := run c State.init [.src 0 1 [], .src 0 2 [], .src 0 3 []]
+    let es' : List (Ev Nat) := [.srcIdle 0, .recv 1 1 0 [], .recv 1 0 0 [], .timeout 1 0, .timeout 1 1,
+      .recv 2 0 1 [], .recv 2 0 0 []]
+    phi c s = 13 ∧ countEnabled c s es' = 7 ∧ phi c (run c s es') = 0 := by
+  decide
+
+/-- Non-vacuity of the servicing condition: `30` sits in the batcher towards 1; enqueues for 0 do not
+    help, an enqueue for 1 after `max_delay` (flag `true`) sends it. -/
+example :
+    let ρ := Row.runOps (.adaptive 5) (fun y : Nat => y % 2) Row.empty
+      [.enq 31 false, .enq 10 false, .enq 12 true, .enq 33 true, .enq 14 false]
+    ρ.out 1 = [[31, 33]] ∧ ρ.buf 1 = [] ∧ ρ.buf 0 = [14] ∧ ρ.out 0 = [[10, 12]] := by
   decide
 
 end Noir.Net
